@@ -26,6 +26,10 @@ for mod in [2, 251, 256, 257, 65521, 65536, 16777259]:
                           bound="modulus %d, byte order %s, input length %d, arbitrary content" % (mod, ["big", "little"][bo], ln),
                           tiers=(["quick", "thorough"] if mod in (251, 256, 65521) else ["thorough"]),
                           mutants=[dict(id="C04b", file="group/mod/int.go", old="\tif i.V.Cmp(compatible.FromCompatibleMod(i.M)) >= 0 {", new="\tif i.V.Cmp(compatible.FromCompatibleMod(i.M)) > 0 {")] if (mod == 251 and ln == size) else []))
+for n in [0, 1, 2]:
+    H.append(dict(name="residue.UnmarshalBinary-len%d" % n, pkg="./group/p256", files=["harness/C04/residue.go"], entry="HarnessResidueUnmarshal", mode="int", params={"p0": n}, replay_entry="HarnessResidueUnmarshalReplay", unwind=64, globals=["one", "two"],
+                  stubs=["math/big.Int as mathematical integers; Exp with constant exponent and modulus by square-and-multiply; Jacobi = arbitrary value in {-1,0,1}"],
+                  functions=["p256.(*residuePoint).UnmarshalBinary", "p256.(*residuePoint).Valid"], bound="residue group P=31, Q=5, R=6 (cofactor > 2); input length %d, arbitrary content" % n))
 EP = "go.dedis.ch/kyber/v4/group/edwards25519."
 ed_contracts = {EP + k: dict(writes=[0], havoc=True) for k in ["feMul", "feSquare", "feSquare2", "feAdd", "feSub", "feNeg", "feCopy", "feCMove", "feFromBytes"]}
 ed_contracts[EP + "feToBytes"] = dict(writes=[0, 1], havoc=True)
